@@ -1606,13 +1606,14 @@ class LinearOperator(object):
         for i, size in enumerate(batch_shape):
             if size == -1:
                 if i < num_new_dims:
-                    raise RuntimeError("Invalid expand arguments {}: -1 is not allowed for a new dimension.".format(sizes))
+                    raise RuntimeError(
+                        "Invalid expand arguments {}: -1 is not allowed for a new dimension.".format(sizes)
+                    )
                 batch_shape[i] = self.batch_shape[i - num_new_dims]
             elif i >= num_new_dims and self.batch_shape[i - num_new_dims] not in (1, size):
                 raise RuntimeError(
-                    "The expanded size ({}) must match the existing size ({}) at non-singleton batch dimension {}.".format(
-                        size, self.batch_shape[i - num_new_dims], i
-                    )
+                    "The expanded size ({}) must match the existing size ({}) "
+                    "at non-singleton batch dimension {}.".format(size, self.batch_shape[i - num_new_dims], i)
                 )
 
         res = self._expand_batch(batch_shape=torch.Size(batch_shape))
